@@ -189,6 +189,8 @@ PREDS = {
     "u_gt": lambda y: y["u"] > 4,
     "and_z_a": lambda y: (y["z"] > 3) & (y["a"] < 5),
     "and_idx_a": lambda y: (y.index > 2) & (y["a"] > 1),
+    "and_indexcol_a": lambda y: (y["index"] > 3) & (y["a"] < 5),  # former index and a column (reset_index)
+    "u_gt_and_b": lambda y: (y["u"] > 3) & (y["b"] < 4),
 }
 
 CROSS = {
@@ -203,7 +205,9 @@ CROSS = {
     "filter_first": (lambda x: x[x["d"] == 1], None, True, True, ["a_cumsum", "b_rank_like", "a_gt2", "a_gt_mean"]),
     "fillna": (lambda x: x.fillna({"b": 0.0}), None, True, True, ["b_le", "b_ne", "b_isna", "and_ab"]),
     "abs": (lambda x: x[["a", "b", "d"]].abs(), None, True, True, ["a_gt2", "b_le", "not_b_gt"]),
-    "reset_index": (lambda x: x.reset_index(), None, True, False, ["a_gt2", "index_col", "b_ne"]),
+    "reset_index": (lambda x: x.reset_index(), None, True, False, ["a_gt2", "index_col", "b_ne", "and_indexcol_a"]),
+    # the new index is a SERIES operand (not a column name): it is not filtered with the frame
+    "set_index_series": (lambda x: x.set_index(x["u"] * 2), lambda x: x.set_index(x["u"] * 2).sort_index(), True, True, ["a_gt2", "u_gt", "b_ne", "u_gt_and_b"]),
     "reset_index_drop": (lambda x: x.reset_index(drop=True), None, True, False, ["a_gt2", "b_isna"]),
     "to_frame": (lambda x: x["a"].to_frame(), None, True, True, ["a_gt2"]),
     "sort_values": (lambda x: x.sort_values("u"), None, True, True, ["a_cumsum", "b_rank_like", "a_gt_mean_plus", "a_minus_mean", "a_gt2", "u_gt", "b_ne", "or_common", "a_gt_mean"]),
@@ -315,6 +319,12 @@ JOIN_PREDS = {
     "vs_mean_plus": lambda m: m["u"] > m["u"].mean() + 0,
     "minus_mean": lambda m: m["u"] - m["u"].mean() > 0,
     "not_left": lambda m: ~(m["u"] > 4),
+    # a condition against a reduction OF THE JOIN RESULT and-ed to a one-sided condition: splitting the conjunction or moving it
+    # into an input must not change what the reduction ranges over
+    "and_left_then_mean": lambda m: (m["u"] > 4) & (m["e"] > m["e"].mean()),
+    "and_mean_then_left": lambda m: (m["e"] > m["e"].mean()) & (m["u"] > 4),
+    "key_vs_mean_plus": lambda m: m["a"] > m["a"].mean() + 0,
+    "left_vs_max_minus": lambda m: m["u"] >= m["u"].max() - 3,
 }
 
 
